@@ -130,9 +130,11 @@ func TestReplyTable(t *testing.T) {
 
 var recMethods = ev.New("C07", "method-positions",
 	"bounded-exhaustive: SOCKS5 method lists of every length n=1..255 with the server's method at every position 0..n-1 or absent, fillers = the other standard methods "+
-		"(incl. X'00' against an auth server), x server auth on/off, harness client, CONNECT then Proceed; odd n use a 1-byte dribble. "+
+		"(incl. X'00' against an auth server), x server auth on/off, harness client; every greeting is followed by a complete CONNECT request (domain / IPv4 / IPv6 target by n), Proceed and a "+
+		"short exchange both ways; by (n+pos) mod 3 the client waits for each answer, sends greeting+[auth]+request(+early data) in one write, or in writes of their own without waiting; "+
+		"every fourth list repeats the server's method at further positions; odd n use a 1-byte dribble. "+
 		"Non-trivial: n >= 2; distinct = (auth, n, position)").
-	Require("absent", "first", "last", "n=255")
+	Require("absent", "first", "last", "middle", "n=255", "dup", "pipelined:one-write", "pipelined:own-writes", "waited", "stream-after-greeting", "early-after-greeting", "refused-then-nothing")
 
 func TestMethodPositions(t *testing.T) {
 	shard, shards := shardOf()
@@ -170,6 +172,31 @@ func TestMethodPositions(t *testing.T) {
 				}
 				if n%2 == 1 {
 					p.SrvPlan = []int{1}
+				} else if n%6 == 0 {
+					p.SrvPlan, p.SrvCoalesce = []int{2, 3, 300}, true
+				}
+				// round 6: whatever the greeting looks like, the bytes behind it are the next message -
+				// a complete request, then application bytes both ways
+				switch n % 3 {
+				case 1:
+					p.Target = target{Kind: "v4", IP: netip.AddrFrom4([4]byte{byte(n), 2, byte(pos + 1), 4}), Port: uint16(n*257 + pos + 1)}
+				case 2:
+					p.Target = target{Kind: "v6", IP: netip.AddrFrom16([16]byte{0: 0xfd, 1: byte(n), 7: byte(pos + 1), 15: 1}), Port: uint16(n)}
+				}
+				p.Pipeline = (n + pos + 1) % 3
+				p.InitPayload, p.C2S, p.S2C = (n+pos+1)%5, []int{3, 1}, []int{5}
+				if p.InitPayload > 0 {
+					p.EarlyData = 1 + (n+pos)%2
+				}
+				dup := false
+				if pos >= 0 && n >= 3 && (n+pos)%4 == 0 {
+					dup = true
+					for _, q := range []int{pos + 1, pos + (n-pos)/2, n - 1} {
+						if q > pos && q < n && p.Methods[q] != want {
+							p.Methods[q] = want
+							p.MethodDup++
+						}
+					}
 				}
 				o, v := runPlan(t, p)
 				if failOrKnown(t, recMethods, v) {
@@ -182,14 +209,36 @@ func TestMethodPositions(t *testing.T) {
 				switch {
 				case pos < 0:
 					labels = append(labels, "absent")
+					if len(o.srvRecv)+len(o.srvPayload)+len(o.cliRecv) == 0 && o.raw5.Rep == -1 {
+						labels = append(labels, "refused-then-nothing")
+					}
 				case pos == 0:
 					labels = append(labels, "first")
+				case pos < n-1:
+					labels = append(labels, "middle")
 				}
 				if pos == n-1 {
 					labels = append(labels, "last")
 				}
 				if n == 255 {
 					labels = append(labels, "n=255")
+				}
+				if dup && p.MethodDup > 0 {
+					labels = append(labels, "dup")
+				}
+				switch {
+				case o.raw5.Pipelined > 0 && p.Pipeline == 1:
+					labels = append(labels, "pipelined:one-write")
+				case o.raw5.Pipelined > 0:
+					labels = append(labels, "pipelined:own-writes")
+				default:
+					labels = append(labels, "waited")
+				}
+				if pos >= 0 && len(o.srvPayload)+len(o.srvRecv) == p.InitPayload+4 && len(o.cliRecv) == 5 {
+					labels = append(labels, "stream-after-greeting")
+					if o.raw5.EarlySent {
+						labels = append(labels, "early-after-greeting")
+					}
 				}
 				recMethods.Case(fmt.Sprintf("%v|%d|%d", auth, n, pos), n >= 2, labels...)
 			}
